@@ -101,6 +101,7 @@ def executions(case: dict[str, Any]) -> Iterator[dict[str, Any]]:
             "argv_order": rng.sample(range(6), 6),
             "flags": [f for f in ("dump_symbols", "verbose") if rng.random() < 0.25],
             "out_subdir": rng.random() < 0.2,
+            "src_subdir": rng.random() < 0.15,
         }
 
     for m in mappings:
@@ -185,6 +186,11 @@ def run_single(case: dict[str, Any], stats: Stats) -> list[Violation]:
     roles.update({"out.ips": "out_ips", "out.sfc": "out_sfc", "out.sym": "symfile", "a.out": "out_ips", "out dir/out.ips": "out_ips", "out dir/out.sfc": "out_sfc"})
     if spec["out"].startswith("out dir/"):
         files["out dir/.keep"] = b""
+    if case.get("src_subdir"):
+        # the main source lives in a sub-directory; its .include/.incbin/.table paths stay relative to the cwd
+        files["src dir/main.s"] = files.pop("main.s")
+        roles["src dir/main.s"] = "source"
+        spec["src"] = "src dir/main.s"
     if case.get("stale") is not None:
         import random as _r
 
@@ -197,7 +203,7 @@ def run_single(case: dict[str, Any], stats: Stats) -> list[Violation]:
     copier = bool(spec.get("copier"))
     stats.bump(f"probe:lattice:{entry}:{fmt}:{'copier' if copier else 'plain'}")
     stats.bump(f"probe:mapping:{mapping}")
-    if prog.defines and any(d[0] in files["main.s"].decode() for d in prog.defines):
+    if prog.defines and any(d[0] in prog.source_files()["main.s"].decode() for d in prog.defines):
         stats.bump("probe:defines_used")
     kn = case.get("knobs") or {}
     stats.state(entry, fmt, mapping, copier, kn.get("bufsize"), "sr" in str(sorted(kn)), bool(case.get("stale")), bool(case.get("abs_paths")), prog.features)
@@ -327,7 +333,7 @@ def sample_of(case: dict[str, Any]) -> Any:
 def shrink_candidates(case: dict[str, Any]) -> Iterator[dict[str, Any]]:
     if case.get("type") != "single":
         return
-    for key, val in (("stale", None), ("abs_paths", False), ("subprocess", False), ("positional_first", True), ("argv_order", None), ("flags", []), ("out_subdir", False)):
+    for key, val in (("stale", None), ("abs_paths", False), ("subprocess", False), ("positional_first", True), ("argv_order", None), ("flags", []), ("out_subdir", False), ("src_subdir", False)):
         if case.get(key) not in (val, None):
             c = dict(case)
             c[key] = val
